@@ -11,6 +11,7 @@ import contextlib
 import io
 import itertools
 import random
+import traceback
 
 from framework import fresh_import, shrink_list
 from indep import c03_e2e as E
@@ -485,6 +486,18 @@ def e2e(chk, tools):
         if fails:
             setattr(flags, w[1], False)      # keep the random generator away from the shape: find *other* failures
             chk.violation(w[0], w[7], {'kind': 'witness', 'key': w[0]})
+    # 1b. directed deterministic round trips: shapes the random generator draws rarely or never (@bytes on the last statement,
+    # character DEFS sizes, every operand shape x base prefix, M repeat, brace/blank comments, all @ignoreua kinds, header/footer blocks)
+    dverdicts = {}
+    for name, org, data, lines, s_opts, c_opts in E.directed_cases(tools):
+        v, d = E.roundtrip(tools, org, data, lines, s_opts, c_opts)
+        dverdicts[v] = dverdicts.get(v, 0) + 1
+        chk.case('directed-' + v, ('directed', name, tuple(s_opts), tuple(c_opts)) if v == 'ok' else None)
+        if v in ('differ', 'not-fixed', 'ctl-error', 's2-error'):
+            chk.violation('directed-{}:{}'.format(v, name.split(':')[0] + (':' + name.split(':')[1] if ':' in name else '')),
+                          'directed case {}: '.format(name) + describe(v, lines if len(data) < 100 else lines[:3], s_opts, c_opts, d),
+                          {'kind': 'roundtrip', 'org': org, 'data': list(data), 'ctl': lines, 's_opts': s_opts, 'c_opts': c_opts, 'keep': '-k' in c_opts})
+    chk.note('directed verdicts: ' + ', '.join('{}={}'.format(k, v) for k, v in sorted(dverdicts.items())))
     # 2. random round trips
     budget = chk.scale(3000, 40000)
     verdicts = {}
@@ -558,7 +571,10 @@ def run(chk):
                 '5 shapes up to 3 instructions + random groups (-k). e2e: random memory (code laid out from instruction templates, data/text/'
                 'words/DEFS runs) + random annotated ctl (all block types, titles, D/R/N/E, M incl. repeat, B/C/S/T/W with lengths, sublengths, '
                 '* and base prefixes, blank/dots-only comments, dot/colon continuation lines under -k, @ directives incl. ignoreua variants, '
-                '> header/footer blocks, hex addresses) x sna2skool {-H,-l,-w,-e} x skool2ctl -b {-k,-h,-l}; S1 must be warning-free and '
+                '> header/footer blocks, hex addresses, @bytes matching the statement) x sna2skool {-H,-l,-w,-e} x skool2ctl -b {-k,-h,-l}; directed '
+                'deterministic round trips on every seed (indep/c03_e2e.py DIRECTED: @bytes on the last statement, character DEFS sizes, DEFB/DEFM/DEFW/DEFS '
+                'base mixtures, negative index offsets, BIT/RES/SET, RST/IN/OUT/jumps under base prefixes, character operands, M repeat, brace and blank '
+                'comments, every @ignoreua kind, multi-block header/footer, every entry type; operand sweep of all operand-taking opcodes x base prefix); S1 must be warning-free and '
                 'contiguous; non-trivial = distinct S1 text that round-trips')
     chk.trusted += ['hand models lean/SkoolVerif/Model/CtlLengths.lean, CtlCompose.lean, CtlComments.lean (theorems) and CtlText.lean (text layer, no '
                     'theorems) tied by correspondence (harness/props/c03.py)',
@@ -583,9 +599,16 @@ def run(chk):
         chk.leanchecker([PROPS])
     tools = E.Tools(sna2skool, skool2ctl, chk.scratch)
     ops, impl = [], []
-    for o, i in (corr_lengths(chk, skoolctl, ctlparser, tools),
-                 corr_statements(chk, disassembler, snaskool, skoolctl, ctlparser),
-                 corr_comments(chk, skoolkit, skoolctl, snaskool, skoolutils, tools)):
+    for fn, args in ((corr_lengths, (chk, skoolctl, ctlparser, tools)),
+                     (corr_statements, (chk, disassembler, snaskool, skoolctl, ctlparser)),
+                     (corr_comments, (chk, skoolkit, skoolctl, snaskool, skoolutils, tools))):
+        try:
+            o, i = fn(*args)
+        except Exception as e:
+            # the real code raised where the model has no such branch: a correspondence break, not a harness failure
+            chk.breaks.append({'kind': 'correspondence', 'name': fn.__name__ + ': real code raised ' + type(e).__name__,
+                               'detail': traceback.format_exc()[-1200:]})
+            continue
         ops += o
         impl += i
     model = chk.run_driver('C03', ops)
